@@ -6,6 +6,7 @@ import Driver.Sema
 import Driver.Lint
 import Driver.Render
 import Driver.Proc
+import Driver.Calls
 
 def dispatch (line : String) : String :=
   match (line.trimAscii.toString.splitOn " ").filter (· ≠ "") with
@@ -24,6 +25,7 @@ def dispatch (line : String) : String :=
   | "exproffsets" :: args => Driver.RenderD.handleExprOffsets args
   | "proctrace" :: args => Driver.ProcD.handle args
   | "shell" :: args => Driver.ProcD.handleShell args
+  | "calls" :: args => Driver.CallsD.handle args
   | _ => "bad-op"
 
 partial def loop (hin : IO.FS.Stream) (hout : IO.FS.Stream) : IO Unit := do
